@@ -606,11 +606,20 @@ class Interp:
 
     def e_Dict(self, e, fr):
         d = {}
+        pairs = []
+        symbolic = False
         for k, v in zip(e.keys, e.values):
             kv = self.ev(k, fr)
-            if not isinstance(kv, (str, int)):
+            vv = self.ev(v, fr)
+            if is_z3(kv) and kv.sort() == INT:
+                symbolic = True
+            elif not isinstance(kv, (str, int)):
                 raise Unsupported("dict literal with non-literal key", e)
-            d[kv] = self.ev(v, fr)
+            pairs.append((kv, vv))
+            if not symbolic:
+                d[kv] = vv
+        if symbolic:
+            return T(("maplit", pairs))       # {symbolic int: row}: only ever passed to table.update()
         return self.run.alloc(HDict(d))
 
     def e_Lambda(self, e, fr):
@@ -1014,6 +1023,12 @@ class Interp:
                     if n == 0:
                         raise PyRaise("IndexError")
                     j = self.norm_index(idx, n, node)
+                    if any(isinstance(x, Ref) for x in o.items):
+                        # rows are mutable objects: select one by case split so that writes reach the real row
+                        for k in range(n - 1):
+                            if run.branch(j == k, "row-index"):
+                                return o.items[k]
+                        return o.items[n - 1]
                     res = o.items[-1]
                     for k in range(n - 2, -1, -1):
                         res = run.ite(j == k, o.items[k], res)
